@@ -12,6 +12,7 @@ import (
 	"errors"
 	"flag"
 	"fmt"
+	"hash/fnv"
 	"io"
 	"net"
 	"os"
@@ -23,6 +24,7 @@ import (
 	"k8s.io/apimachinery/pkg/types"
 	k8sp "k8s.io/kubernetes/pkg/proxy"
 
+	"github.com/projectcalico/calico/felix/bpf/consistenthash"
 	"github.com/projectcalico/calico/felix/bpf/maps"
 	"github.com/projectcalico/calico/felix/bpf/mock"
 	"github.com/projectcalico/calico/felix/bpf/nat"
@@ -495,10 +497,11 @@ func (w *world) run(steps []step) runInfo {
 		if len(w.be.Contents) > ri.maxBe {
 			ri.maxBe = len(w.be.Contents)
 		}
-		op := fmt.Sprintf("OApply %s %s %s %s [%s] %s %s %s %s",
+		op := fmt.Sprintf("OApply %s %s %s %s [%s] %s %s %s %s %s %s",
 			coqState(st.state), visitOrder(ids, rec, st.state), keysOf(w.in.failedF), keysOf(w.in.failedB),
 			strings.Join(w.in.trace, "; "), coqBool(err != nil),
-			dumpMap(w.fe.Map, coqFKey, coqFVal), dumpMap(w.be.Map, coqBKey, coqBVal), w.maglevObs(st.state))
+			dumpMap(w.fe.Map, coqFKey, coqFVal), dumpMap(w.be.Map, coqBKey, coqBVal), w.maglevObs(st.state),
+			w.lutTables(st.state), dumpMap(w.mg.Map, coqMKey, coqBVal))
 		ri.ops = append(ri.ops, op)
 		if len(ri.sample) < 6 {
 			ri.sample = append(ri.sample, map[string]any{"services": len(st.state), "writes": w.in.nWrites, "failed_writes": w.in.nFailed,
@@ -508,6 +511,34 @@ func (w *world) run(steps []step) runInfo {
 	}
 	w.s.Stop()
 	return ri
+}
+
+// lutTables: for every maglev service with a ready endpoint the consistent-hash table, computed as the syncer does
+// (felix/bpf/consistenthash over the ready endpoints), keyed by the addresses of its ready endpoints in state order.
+func (w *world) lutTables(st []svcState) string {
+	var xs []string
+	for _, ss := range st {
+		if !ss.svc.maglev {
+			continue
+		}
+		ch := consistenthash.New(w.lutSize, fnv.New32(), fnv.New32())
+		var key []string
+		for _, e := range ss.eps {
+			if e.ready {
+				ch.AddBackend(proxy.NewEndpointInfo(ipStr(e.ip), e.port, proxy.EndpointInfoOptIsReady(true)))
+				key = append(key, fmt.Sprintf("(%d,%d)", e.ip, e.port))
+			}
+		}
+		if len(key) == 0 {
+			continue
+		}
+		var tab []string
+		for _, b := range ch.Generate() {
+			tab = append(tab, fmt.Sprintf("(%d,%d)", ip4(net.ParseIP(b.IP())), b.Port()))
+		}
+		xs = append(xs, fmt.Sprintf("([%s], [%s])", strings.Join(key, "; "), strings.Join(tab, "; ")))
+	}
+	return "[" + strings.Join(xs, "; ") + "]"
 }
 
 // maglevInvariant: every frontend flagged maglev that has backends finds a complete LUT under its id.
@@ -808,7 +839,7 @@ type line struct {
 	Tags   []string       `json:"tags"`
 }
 
-func emit(enc *json.Encoder, npips []uint32, steps []step, tags []string, reset bool) {
+func emit(enc *json.Encoder, npips []uint32, steps []step, tags []string, reset, mgfix bool) {
 	w := newWorld(npips)
 	ri := w.run(steps)
 	var key []string
@@ -822,7 +853,7 @@ func emit(enc *json.Encoder, npips []uint32, steps []step, tags []string, reset 
 	sample := map[string]any{"applies": ri.sample, "single_writes": ri.nWrites, "failed_writes": ri.nFailed,
 		"failed_applies": ri.failedApplies, "restarts": ri.restarts, "max_frontends": ri.maxFe, "max_backends": ri.maxBe}
 	mk := func(mgcheck bool) string {
-		return fmt.Sprintf("(Case %s %s %d %s [%s])%%N", coqList(npips), coqBool(reset), w.lutSize, coqBool(mgcheck), strings.Join(ri.ops, ";\n "))
+		return fmt.Sprintf("(Case %s %s %s %d %s [%s])%%N", coqList(npips), coqBool(reset), coqBool(mgfix), w.lutSize, coqBool(mgcheck), strings.Join(ri.ops, ";\n "))
 	}
 	k := coqList(npips) + strings.Join(key, "/")
 	if ri.mgBad {
@@ -844,12 +875,13 @@ func main() {
 	r := &rng{s: *seed}
 	enc := json.NewEncoder(os.Stdout)
 	reset := probeReset()
+	mgfix := probeMgFix()
 	count := 0
 	for _, sc := range scripted() {
 		if count >= *n {
 			break
 		}
-		emit(enc, sc.npips, sc.steps, append([]string{"scripted"}, sc.tags...), reset)
+		emit(enc, sc.npips, sc.steps, append([]string{"scripted"}, sc.tags...), reset, mgfix)
 		count++
 	}
 	for ; count < *n; count++ {
@@ -862,6 +894,6 @@ func main() {
 			npips = append(npips, podNPIP)
 		}
 		steps, tags := genHistory(r, r.intn(3) == 0)
-		emit(enc, npips, steps, tags, reset)
+		emit(enc, npips, steps, tags, reset, mgfix)
 	}
 }
